@@ -20,12 +20,15 @@ from leanbuild import lean_obligations
 HEADING_DOCS = [
     "# **All bold**\n\ntext\n", "## ***bold italic***\n", "### **partly** bold\n", "# *just italic*\n", "#### **a** **b**\n",
     "# **x `code` y**\n", "> # **in quote**\n", "- # **in list**\n", "[^n]: # **in note**\n\ntext[^n]\n", "# ~~**struck bold**~~\n",
+    "## ***Note:** read this part first*\n", "## *read this **part***\n", "# ***a** b **c***\n", "## ***a***b\n", "# **a***b*\n", "## _**Note:** rest_\n",
+    "### __*x*__ y\n", "# *a **b** c*\n", "Setext ***Note:** more*\n---\n", "# ** **\n", "# **a**\\\nb\n", "## **a** \n",
     "**not a heading**\n", "**Setext Title**\n===\n\ntext\n", "***Setext two***\n---\n", "# **[link](http://u)**\n", "###### **six**\n", "# *** *\n",
 ]
 LIST_DOCS = [
     "- a\n- b\n- c\n", "- a\n\n- b\n\n- c\n", "1. a\n2. b\n", "1. a\n\n2. b\n", "- a\n  - x\n  - y\n- b\n", "- a\n\n  - x\n\n  - y\n\n- b\n",
     "- a\n\n  second para\n- b\n", "> - q1\n> - q2\n", "> - q1\n>\n> - q2\n", "[^n]: - f1\n    - f2\n\nx[^n]\n", "- a\n  ```\n  code\n  ```\n- b\n",
-    "- a\n  > quote\n- b\n", "* x\n* y\n\n+ p\n+ q\n", "- [ ] t1\n- [x] t2\n", "3. c\n4. d\n\n   more\n5. e\n", "- a\n\n\n- b\n",
+    "- a\n  > quote\n- b\n", "- ```\n  code\n  ```\n\n- ```\n  x\n  ```\n", "- > q\n\n- > r\n", "- - a\n\n- - b\n", "1. ```\n   c\n   ```\n2. p\n",
+    "- | a | b |\n  |---|---|\n  | 1 | 2 |\n\n- x\n", "- <div>\n  html\n  </div>\n\n- y\n", "- * * *\n\n- z\n", "- [r]: http://u\n\n- w\n", "* x\n* y\n\n+ p\n+ q\n", "- [ ] t1\n- [x] t2\n", "3. c\n4. d\n\n   more\n5. e\n", "- a\n\n\n- b\n",
 ]
 
 
@@ -102,6 +105,12 @@ def spacing_oracle(ctx: Ctx, docs, label) -> None:
             except Exception as e:
                 ctx.fail("format raised", {"doc": doc}, repr(e))
                 continue
+            for m in (ListSpacing.preserve, ListSpacing.loose, ListSpacing.tight):
+                # the mode is also carried as its plain string value (config files, the documented API form)
+                ref = pres if m == ListSpacing.preserve else outs[m]
+                if label.endswith("special") and fmt(doc, width=W, semantic=sem, list_spacing=m.value) != ref:
+                    ctx.fail("MODE_AS_STRING: the mode given as its string value formats differently from the enum member",
+                             {"doc": doc, "width": W, "semantic": sem, "mode": m.value})
             for m, out in outs.items():
                 case = {"doc": doc, "width": W, "semantic": sem, "mode": m.value}
                 ctx.count(["spacing", doc, W, sem, m.value], nontrivial=out != pres, sample=(i % 97 == 2))
